@@ -708,7 +708,7 @@ impl Property for C30 {
         "round trip for requests/responses compares all public fields (keys via Cipher::key_bytes)",
         "records additionally: type, body and (for unknown types) critical bit survive parse→serialise (information preservation; added after a lossy-parser mutant survived the value round trip)",
     ];
-    const QUICK_CASES: u32 = 256_000;
+    const QUICK_CASES: u32 = 1_000_000;
     const THOROUGH_CASES: u32 = 8_000_000;
 
     fn strategy(_tier: Tier) -> BoxedStrategy<Case> {
